@@ -93,6 +93,9 @@ fn main() {
                 let target = &target;
                 if let Some(t) = target { if let Some(parent) = p.join(t).parent() { fs::create_dir_all(parent).map_err(|e| e.to_string())?; } }
                 if relative { if let Some(t) = target { if t.ends_with("tauri.conf.json") { fs::write(p.join(t), "{\n  \"productName\": \"root-config\"\n}\n").map_err(|e| e.to_string())?; } } }
+                // files a tool might think of as its own side files of the pointed configuration: they are the user's
+                { let base = match target { Some(t) => p.join(t), None => p.join("src-tauri/tauri.conf.json") };
+                  for suffix in [".bak", ".orig", "~", ".old", ".tmp"] { let mut n = base.clone().into_os_string(); n.push(suffix); fs::write(std::path::PathBuf::from(n), "kept by the user\n").map_err(|e| e.to_string())?; } }
                 let before = snapshot(&p);
                 let pp = p.join("src-tauri"); let gp = p.join("src/generated");
                 let mut args: Vec<String> = vec!["init".into(), "--project-path".into(), pp.to_string_lossy().into(), "--generated-path".into(), gp.to_string_lossy().into(), "--validation".into(), mode.into()];
@@ -111,6 +114,26 @@ fn main() {
                     if !in_generated { return Err(format!("init was pointed at {} but created {}", pointed, f)); }
                 }
                 if code == 0 && !after.contains_key(&pointed) { return Err(format!("init reported success but {} does not exist", pointed)); }
+                // the same command again, then with --force (a stand-alone file that exists is only replaced when forced):
+                // still nothing but the pointed file and reserved names in the generated path
+                let mut prev = after;
+                for (step, extra) in [("again", None), ("again with --force", Some("--force")), ("a third time with --force", Some("--force"))] {
+                    let mut a2: Vec<&str> = a.clone();
+                    if let Some(x) = extra { a2.push(x); }
+                    let (code2, text2) = run(&cli, &p, &a2)?;
+                    if code2 != 0 && code2 != 1 { return Err(format!("init {} ended with status {}: {}", step, code2, text2.chars().take(300).collect::<String>())); }
+                    let now = snapshot(&p);
+                    for (f, bytes) in &prev {
+                        if *f == pointed || (f.starts_with("src/generated/") && reserved(&f["src/generated/".len()..])) { continue; }
+                        match now.get(f) { Some(b) if b == bytes => {}, Some(_) => return Err(format!("init {} was pointed at {} but {} was modified", step, pointed, f)), None => return Err(format!("init {} was pointed at {} but {} was removed", step, pointed, f)) }
+                    }
+                    for f in now.keys() {
+                        if prev.contains_key(f) || *f == pointed { continue; }
+                        let in_generated = f.starts_with("src/generated/") && reserved(&f["src/generated/".len()..]);
+                        if !in_generated { return Err(format!("init {} was pointed at {} but created {}", step, pointed, f)); }
+                    }
+                    prev = now;
+                }
                 Ok(format!("status {}", code))
             });
         }
